@@ -40,6 +40,81 @@ def is_env(node) -> bool:
     return t in ENV_NAMES or t.endswith("['vars']") or t.endswith('["vars"]')
 
 
+def rule_fold_sites(cx, prefix):
+    """every transpile-time evaluation is name-free; nothing else reads the constant environment into emitted text"""
+    pm = mod(PARSER)
+    r = cx.rule(f"{prefix}-FOLD-GUARD", "every transpile-time evaluation whose result is baked into the firmware happens under `not _expr_has_name(<ast of the same source text>)` (name-free), so flow-insensitivity of the constant environment cannot leak into literals", floor=15)
+    WL = {
+        "_handle_assignment_ast.eval_or_expr": "the result only becomes a baked literal through the is_const/expr_uses_names decision checked by C03-GLOBAL-INIT",
+        "ultrasonic-model": "validation only: the emitted model is the constant 'HC-SR04'",
+    }
+    sites = 0
+    for q, fn in pm.funcs.items():
+        if q.startswith("_eval_const"):
+            continue
+        fold_calls = [c for c in walk_local(fn, include_self=False) if isinstance(c, ast.Call) and call_name(c) in ("_eval_const", "ast.literal_eval")]
+        if not fold_calls:
+            continue
+        loc = Locals(fn)
+        for c in fold_calls:
+            st = c
+            while not isinstance(st, ast.stmt):
+                st = pm.parent[st]
+            sites += 1
+            src_txt = norm(c.args[0]) if c.args else ""
+            if call_name(c) == "ast.literal_eval":
+                r.ok(f"{q}: literal_eval({src_txt}) is name-free by construction")
+                continue
+            if q in WL:
+                r.ok(f"{q}: whitelisted ({WL[q][:40]})")
+                continue
+            if src_txt == "model_arg":
+                r.ok(f"{q}: ultrasonic model (validation only)")
+                continue
+            cs = lexical_conds(pm, c)
+            guarded = False
+            for t, tv in cs:
+                if (t.startswith("_expr_has_name(") and not tv) or (t.startswith("not _expr_has_name(") and tv):
+                    inner = t[t.index("_expr_has_name(") + len("_expr_has_name("):].rstrip(")")
+                    # the tested AST must be the parse of the very text being evaluated
+                    ds = loc.defs.get(inner, [])
+                    parsed_same = any(isinstance(d, ast.expr) and (f"ast.parse({src_txt}," in norm(d) or f"ast.parse({src_txt})" in norm(d)) for d in ds)
+                    if parsed_same:
+                        guarded = True
+            key_site = f"{q}/_eval_const({src_txt})"
+            r.check(guarded, f"{key_site}-unguarded", (pm, c), f"`{stmt_key(st)}`: the expression is evaluated against the constant environment without the name-free guard; names bound earlier (possibly in another branch or loop pass) are baked into the firmware", sample=f"{q}: _eval_const({src_txt}) under not _expr_has_name")
+    if sites < 15:
+        raise AnalysisError(f"only {sites} fold sites recognised (confirmed: 20)")
+    cx.extra["fold_sites"] = sites
+
+    r = cx.rule(f"{prefix}-ENV-READ", "nothing else reads a value out of the constant environment into emitted text: every `.get`/subscript read of the environment is plumbing (_helpers/_ctx), the evaluator's own lookup, or a save/restore", floor=8)
+    for q, fn in pm.funcs.items():
+        for n in walk_local(fn, include_self=False):
+            key = None
+            if isinstance(n, ast.Call) and isinstance(n.func, ast.Attribute) and n.func.attr in ("get", "pop") and is_env(n.func.value) and n.args:
+                key = n.args[0]
+            elif isinstance(n, ast.Subscript) and isinstance(n.ctx, ast.Load) and is_env(n.value):
+                key = n.slice
+            if key is None:
+                continue
+            kt = norm(key)
+            if kt in ("'_helpers'", "'_ctx'"):
+                r.ok(f"{q}: env plumbing {kt}")
+                continue
+            if q == "_eval_const.ev":
+                r.ok("_eval_const.ev: the evaluator's own lookup")
+                continue
+            par = pm.parent.get(n)
+            # save/restore around a comprehension variable
+            if isinstance(par, ast.Assign) and isinstance(par.targets[0], ast.Name) and par.targets[0].id.startswith("saved"):
+                r.ok(f"{q}: save/restore of {kt}")
+                continue
+            if n.func.attr == "pop" if isinstance(n, ast.Call) else False:
+                r.ok(f"{q}: restore of {kt}")
+                continue
+            r.fail(f"{q}/env-read[{kt}]", (pm, n), f"`{stmt_key(par if isinstance(par, ast.stmt) else n)}` reads `{kt}` from the constant environment; the value found there was bound flow-insensitively (another branch, an earlier loop pass) and is baked into the firmware")
+
+
 def list_size_guard_ok(pm) -> bool:
     """re-assignment of a declared list compares the *previously recorded* length with the length of the new value and
     raises on a mismatch; both operands are read before the record is updated"""
@@ -195,78 +270,7 @@ def run(cx):
                 r.stat.failed += 1
     cx.extra["eval_sem"] = {"expressions": len(exprs), "declined": n_decl}
 
-    # ---- C03-FOLD-GUARD ----------------------------------------------------------------------
-    r = cx.rule("C03-FOLD-GUARD", "every transpile-time evaluation whose result is baked into the firmware happens under `not _expr_has_name(<ast of the same source text>)` (name-free), so flow-insensitivity of the constant environment cannot leak into literals", floor=15)
-    WL = {
-        "_handle_assignment_ast.eval_or_expr": "the result only becomes a baked literal through the is_const/expr_uses_names decision checked by C03-GLOBAL-INIT",
-        "ultrasonic-model": "validation only: the emitted model is the constant 'HC-SR04'",
-    }
-    sites = 0
-    for q, fn in pm.funcs.items():
-        if q.startswith("_eval_const"):
-            continue
-        fold_calls = [c for c in walk_local(fn, include_self=False) if isinstance(c, ast.Call) and call_name(c) in ("_eval_const", "ast.literal_eval")]
-        if not fold_calls:
-            continue
-        loc = Locals(fn)
-        for c in fold_calls:
-            st = c
-            while not isinstance(st, ast.stmt):
-                st = pm.parent[st]
-            sites += 1
-            src_txt = norm(c.args[0]) if c.args else ""
-            if call_name(c) == "ast.literal_eval":
-                r.ok(f"{q}: literal_eval({src_txt}) is name-free by construction")
-                continue
-            if q in WL:
-                r.ok(f"{q}: whitelisted ({WL[q][:40]})")
-                continue
-            if src_txt == "model_arg":
-                r.ok(f"{q}: ultrasonic model (validation only)")
-                continue
-            cs = lexical_conds(pm, c)
-            guarded = False
-            for t, tv in cs:
-                if (t.startswith("_expr_has_name(") and not tv) or (t.startswith("not _expr_has_name(") and tv):
-                    inner = t[t.index("_expr_has_name(") + len("_expr_has_name("):].rstrip(")")
-                    # the tested AST must be the parse of the very text being evaluated
-                    ds = loc.defs.get(inner, [])
-                    parsed_same = any(isinstance(d, ast.expr) and (f"ast.parse({src_txt}," in norm(d) or f"ast.parse({src_txt})" in norm(d)) for d in ds)
-                    if parsed_same:
-                        guarded = True
-            key_site = f"{q}/_eval_const({src_txt})"
-            r.check(guarded, f"{key_site}-unguarded", (pm, c), f"`{stmt_key(st)}`: the expression is evaluated against the constant environment without the name-free guard; names bound earlier (possibly in another branch or loop pass) are baked into the firmware", sample=f"{q}: _eval_const({src_txt}) under not _expr_has_name")
-    if sites < 15:
-        raise AnalysisError(f"only {sites} fold sites recognised (confirmed: 20)")
-    cx.extra["fold_sites"] = sites
-
-    # ---- C03-ENV-READ ------------------------------------------------------------------------
-    r = cx.rule("C03-ENV-READ", "nothing else reads a value out of the constant environment into emitted text: every `.get`/subscript read of the environment is plumbing (_helpers/_ctx), the evaluator's own lookup, or a save/restore", floor=8)
-    for q, fn in pm.funcs.items():
-        for n in walk_local(fn, include_self=False):
-            key = None
-            if isinstance(n, ast.Call) and isinstance(n.func, ast.Attribute) and n.func.attr in ("get", "pop") and is_env(n.func.value) and n.args:
-                key = n.args[0]
-            elif isinstance(n, ast.Subscript) and isinstance(n.ctx, ast.Load) and is_env(n.value):
-                key = n.slice
-            if key is None:
-                continue
-            kt = norm(key)
-            if kt in ("'_helpers'", "'_ctx'"):
-                r.ok(f"{q}: env plumbing {kt}")
-                continue
-            if q == "_eval_const.ev":
-                r.ok("_eval_const.ev: the evaluator's own lookup")
-                continue
-            par = pm.parent.get(n)
-            # save/restore around a comprehension variable
-            if isinstance(par, ast.Assign) and isinstance(par.targets[0], ast.Name) and par.targets[0].id.startswith("saved"):
-                r.ok(f"{q}: save/restore of {kt}")
-                continue
-            if n.func.attr == "pop" if isinstance(n, ast.Call) else False:
-                r.ok(f"{q}: restore of {kt}")
-                continue
-            r.fail(f"{q}/env-read[{kt}]", (pm, n), f"`{stmt_key(par if isinstance(par, ast.stmt) else n)}` reads `{kt}` from the constant environment; the value found there was bound flow-insensitively (another branch, an earlier loop pass) and is baked into the firmware")
+    rule_fold_sites(cx, "C03")
 
     # ---- C03-ENV-WRITE -----------------------------------------------------------------------
     r = cx.rule("C03-ENV-WRITE", "the constant environment only ever receives (a) the value evaluated from that very assignment's right-hand side, or (b) the unknown marker _ExprStr(...); augmented assignments, promoted names, loop variables, parameters and devices are invalidated with the marker", floor=15)
